@@ -151,6 +151,11 @@ func strTruncateFunc(_ *ctx.EvalCtx, receiver object.Object, args ...object.Obje
 	val := receiver.(*object.Str).Value
 	limit := int(firstArg.Value)
 
+	// a negative limit keeps nothing of the string
+	if limit < 0 {
+		limit = 0
+	}
+
 	if limit >= utf8.RuneCountInString(val) {
 		return &object.Str{Value: val}, nil
 	}
@@ -168,7 +173,8 @@ func strTruncateFunc(_ *ctx.EvalCtx, receiver object.Object, args ...object.Obje
 		}
 	}
 
-	newVal := val[:firstArg.Value] + ellipsis
+	// cut on characters, not on bytes
+	newVal := string([]rune(val)[:limit]) + ellipsis
 
 	return &object.Str{Value: newVal}, nil
 }
